@@ -130,6 +130,7 @@ type FnCtx struct {
 	appendSites map[ssa.Instruction]int
 	storeSites  map[ssa.Instruction]int
 	stmtSites   map[ssa.Instruction]string
+	beforeSites map[ssa.Instruction]string // "before stmt ..." sites: fire before the first call of the line
 	unrollTag string // suffix making obligation names unique inside unrolled loops
 	pureEval  bool   // evaluating the body of an opaque spec function: memory must not be read
 	assumeTag string
